@@ -24,7 +24,7 @@ import (
 //	settle = the fairness premise of C02 made executable: caches := API, terminating pods vanish, every other pod that is
 //	         not Failed/Succeeded becomes Running and Ready. Pod deletes are graceful (a deletion timestamp until settle).
 //	case: <rounds>#<sync case line>      (the sync case gives the initial world; its fault plan applies to round 1 only)
-//	obs : n=<rounds run> then per round j: s<j>=<out>/<writes>/<pods>/<revs>/<status>
+//	obs : n=<rounds run> then per round j: s<j>=<out>/<writes>/<pods>/<revs>/<status>, then tb=<created pods built from the wrong template>
 //	      pods = name:owner:sel:phase:ready:term:rev:idOk;...   revs = name:number:owner:sel:marker:data;...  (state AFTER the sync of round j)
 func init() {
 	engines["world"] = &Engine{Gen: genWorld, Run: runWorld}
@@ -128,7 +128,7 @@ func runWorld(line string) string {
 	if err != nil {
 		return "bad-case " + err.Error()
 	}
-	watchSwallowedPanics()
+	productionCrashSemantics()
 	w := buildSyWorld(c)
 	w.graceful = true
 	var parts []string
@@ -157,9 +157,6 @@ func runWorld(line string) string {
 				out = "err"
 			}
 		}()
-		if _, ok := swallowedPanic(); ok && out != "crash" {
-			out = "panic"
-		}
 		writes := 0
 		for _, e := range w.log {
 			if !strings.HasPrefix(e, "list:") && !strings.HasPrefix(e, "get:") {
@@ -185,7 +182,8 @@ func runWorld(line string) string {
 			break
 		}
 	}
-	return fmt.Sprintf("n=%d %s", n, strings.Join(parts, " "))
+	// tb: pods the controller created during the run whose template is not the one recorded by the revision their label names
+	return fmt.Sprintf("n=%d %s tb=%d", n, strings.Join(parts, " "), w.tplBad(c))
 }
 
 // generation: mostly worlds that satisfy the premises of C02 (valid spec, canonical member pods, nothing squatting on a
